@@ -27,6 +27,115 @@ def run(fx, rep, tier):
     rule_range(fx, rep, ex, arms)
     pC05.rule_noblock(fx, rep, ex, arms, names=("SetOption", "IsReady"), rid="C13-NOLOCK")
     rule_consume(fx, rep, ex)
+    rule_accept(fx, rep)
+
+
+def accept_eval(e, v, vals):
+    """value of a setter's guard expression for parsed value v and the advertised {min, max, default}; None if not modelled"""
+    from facts import cmp_op
+    d = deep_strip(e)
+    if not isinstance(d, tuple) or not d:
+        return None
+    if d[0] == "const" and isinstance(d[1], (int, bool)):
+        return int(d[1])
+    if find_calls(d, "str::parse") or find_calls(d, "FromStr>::from_str") or find_calls(d, "options::parse_spin_value"):
+        # the parsed value itself (payload of the successful parse), not a comparison over it
+        if not (d[0] in ("call", "binop") and (cmp_op(d) or d[1].endswith("::contains"))):
+            return v
+    if d[0] == "field" and d[2] in ("min", "max", "default") and "DEF" in show(d[1]):
+        return vals.get(d[2])
+    co = cmp_op(d)
+    if co:
+        a, b = accept_eval(co[1], v, vals), accept_eval(co[2], v, vals)
+        if a is None or b is None:
+            return None
+        return int({"Eq": a == b, "Ne": a != b, "Lt": a < b, "Le": a <= b, "Gt": a > b, "Ge": a >= b}[co[0]])
+    if d[0] == "call" and isinstance(d[1], str) and d[1].endswith("::contains") and len(d[2]) == 2:
+        rng = deep_strip(d[2][0])
+        x = accept_eval(d[2][1], v, vals)
+        if isinstance(rng, tuple) and rng[0] == "agg" and x is not None and len(rng[2]) >= 2:
+            lo, hi = accept_eval(rng[2][0], v, vals), accept_eval(rng[2][1], v, vals)
+            if lo is None or hi is None:
+                return None
+            if str(rng[1]).endswith("Range::Range"):
+                return int(lo <= x < hi)
+            if "RangeInclusive" in str(rng[1]):
+                return int(lo <= x <= hi)
+        if isinstance(rng, tuple) and rng[0] == "call" and "RangeInclusive" in str(rng[1]) and x is not None and len(rng[2]) == 2:
+            lo, hi = accept_eval(rng[2][0], v, vals), accept_eval(rng[2][1], v, vals)
+            if lo is not None and hi is not None:
+                return int(lo <= x <= hi)
+        return None
+    if d[0] == "unop" and d[1] == "Not":
+        a = accept_eval(d[2], v, vals)
+        return None if a is None else int(not a)
+    return None
+
+
+def rule_accept(fx, rep):
+    """A spin setter may refuse a value only because it does not parse: no path that returns Err is taken for a value inside
+    the advertised [min, max] (an Err from the command handler ends the input loop, i.e. the engine exits)."""
+    from facts import decision_paths
+    ok = True
+    n = 0
+    names = option_names(fx)
+    for ty, nm in sorted(names.items()):
+        variant, vals = def_body_fields(fx, ty)
+        if variant != "Spin" or not all(isinstance(vals.get(k), int) for k in ("min", "max")):
+            continue
+        sb = fx.body(ty + "::set")
+        if sb is None:
+            continue
+        paths = decision_paths(sb, 256)
+        for conds, ret, last in paths:
+            r = deep_strip(ret) if ret is not None else None
+            is_err = isinstance(r, tuple) and r and ((r[0] == "agg" and str(r[1]).endswith("Result::Err")) or (r[0] == "call" and "from_residual" in str(r[1])))
+            if not is_err:
+                continue
+            # guards that are not about the parse result / the DEF variant
+            extra = []
+            parse_failed = False
+            for (e, val) in conds:
+                d = deep_strip(e)
+                if isinstance(d, tuple) and d[0] == "discr":
+                    if find_calls(d, "str::parse") or find_calls(d, "options::parse_spin_value") or find_calls(d, "Try>::branch"):
+                        if val != 0:
+                            parse_failed = True
+                        continue
+                    if "DEF" in show(d):
+                        continue
+                extra.append((e, val))
+            if parse_failed:
+                continue
+            n += 1
+            rejected = None
+            undecided = False
+            for v in sorted({vals["min"], vals["max"], (vals["min"] + vals["max"]) // 2}):
+                taken = True
+                for (e, val) in extra:
+                    x = accept_eval(e, v, vals)
+                    if x is None:
+                        undecided = True
+                        break
+                    if isinstance(val, int):
+                        taken = taken and (x == val)
+                    elif isinstance(val, tuple) and val[0] == "otherwise":
+                        taken = taken and (x not in val[1])
+                if undecided:
+                    break
+                if taken:
+                    rejected = v
+                    break
+            if undecided:
+                rep.notes.append(f"C13-ACCEPT: an Err path of the `{nm}` setter is guarded by a condition this rule does not model; not decided")
+                continue
+            good = rejected is None
+            rep.obligation(good)
+            if not good:
+                ok = False
+                rep.violation("C13-ACCEPT", f"C13-ACCEPT/{nm}", f"the setter of `{nm}` returns Err for the value {rejected}, which lies inside the advertised range [{vals['min']}, {vals['max']}]: the command handler's Err ends the input loop, so the engine exits instead of accepting an advertised value",
+                              {"fn": sb.name, "file": sb.file, "line": sb.line})
+    rep.rule("C13-ACCEPT", n, 0, ok, "no advertised spin value is refused by its setter")
 
 
 def option_readers(fx, ex):
@@ -230,6 +339,10 @@ U = "src/engine/uci/mod.rs"
 O = "src/engine/uci/options.rs"
 TTF = "src/engine/transposition_table.rs"
 MUTANTS = [
+    {"name": "Hash setter validates with a half-open range (seed C13-3)", "expect": "C13-ACCEPT/Hash",
+     "edits": [(O, "        let hash_size = value.parse::<usize>().map_err(|_| \"Invalid value\")?;\n", "        let hash_size = value.parse::<usize>().map_err(|_| \"Invalid value\")?;\n\n        if let UciOptionType::Spin { min, max, .. } = Self::DEF {\n            if !(min..max).contains(&hash_size) {\n                return Err(format!(\"Value must be between {min} and {max}\"));\n            }\n        }\n")]},
+    {"name": "benign: Hash setter validates with the closed range", "benign": True,
+     "edits": [(O, "        let hash_size = value.parse::<usize>().map_err(|_| \"Invalid value\")?;\n", "        let hash_size = value.parse::<usize>().map_err(|_| \"Invalid value\")?;\n\n        if let UciOptionType::Spin { min, max, .. } = Self::DEF {\n            if hash_size < min || hash_size > max {\n                return Err(format!(\"Value must be between {min} and {max}\"));\n            }\n        }\n")]},
     {"name": "move overhead subtracted with a panicking Duration subtraction (seed C13-1)", "expect": "C13-CONSUME",
      "edits": [("src/engine/search/time_control.rs", "                let mut time_remaining = time_remaining.unwrap_or_default();\n\n                time_remaining = time_remaining\n                    .saturating_sub(move_overhead)\n                    .max(move_overhead);",
                 "                let time_remaining =\n                    (time_remaining.unwrap_or_default() - move_overhead).max(move_overhead);")]},
